@@ -1,10 +1,33 @@
 import F3.Model.CodecBytes
+import F3.Model.Payload
 import Mathlib.Logic.Equiv.List
-/-! A witness used by the non-vacuity examples of C14: in the model (byte strings are `List Nat`) an
-injective "hash" with 32-element, non-zero output exists, so the hypotheses `HashOK` / `CidHashOK`
-are satisfiable. -/
+/-! Witnesses used by the non-vacuity examples of C14.
+
+`demoHash`: in the model (byte strings are `List Nat`, which has non-byte elements) an injective
+"hash" with 32-element, non-zero output exists, so the hypotheses `HashOK` / `CidHashOK` of the
+*idealised-hash corollaries* are satisfiable. No real hash satisfies them.
+
+`toyHash`: a deliberately weak 32-byte hash (sum of the input mod 251, plus one, in the last byte) that
+the kernel evaluates quickly and whose collisions are known (any permutation of the input). Used to
+*evaluate* the collision-extraction theorems on concrete inputs: both on inputs whose keys differ and
+on inputs where a collision really is exhibited. (The executable keccak-256 of `F3.Model.CodecHash`
+needs about 100 s of kernel reduction per call, so it is instantiated but not evaluated in examples.) -/
 namespace F3.Codec
 
 def demoHash (x : Bytes) : Bytes := (Encodable.encode x + 1) :: List.replicate 31 0
+
+/-- 31 zero bytes followed by `(Σ input) % 251 + 1`: 32 bytes, never the zero digest, many collisions. -/
+def toyHash (x : Bytes) : Bytes := List.replicate 31 0 ++ [x.foldl (· + ·) 0 % 251 + 1]
+
+/-! concrete tipsets for the evaluated examples: `tsA'` permutes the tipset key of `tsA`, `tsA''` permutes
+its power-table CID (both collide with `tsA` under `toyHash`); `tsB'` changes the key of `tsB` by value -/
+namespace Demo
+open F3.Payload
+def tsA : TipSet := ⟨10, [1, 2, 3], [1, 113, 0, 0], List.replicate 32 9⟩
+def tsA' : TipSet := ⟨10, [3, 2, 1], [1, 113, 0, 0], List.replicate 32 9⟩
+def tsA'' : TipSet := ⟨10, [1, 2, 3], [113, 1, 0, 0], List.replicate 32 9⟩
+def tsB : TipSet := ⟨11, [4, 5], [1, 113, 0, 0], List.replicate 32 7⟩
+def tsB' : TipSet := ⟨11, [4, 6], [1, 113, 0, 0], List.replicate 32 7⟩
+end Demo
 
 end F3.Codec
